@@ -16,7 +16,7 @@ def run(tier):
     if tier == 'quick':
         # pbgen shares the helpers with cnfgen: one template in six is enough on every change
         sel = [n for n in sel if not n.endswith('_pbgen') or int(re.search(r'_t(\d+)_', n).group(1)) % 6 == 0]
-    sel += ['h_e_cnfshuffle', 'h_e_kthlist2pebbling', 'h_e_graphfiles', 'h_e_stdin_tools', 'h_e_postparse', 'h_e_fallbacks', 'h_e_oserrors']
+    sel += ['h_e_cnfshuffle', 'h_e_kthlist2pebbling', 'h_e_graphfiles', 'h_e_stdin_tools', 'h_e_postparse', 'h_e_fallbacks', 'h_e_oserrors', 'h_e_latex_pages']
     run = Run('C18', tier)
     run.explanation = (
         'Engine X in enumerative mode over a wide argv grammar, through the real main() of the four tools (sys.argv, stdout, stderr, '
